@@ -182,6 +182,10 @@ def oracle(net, stats):
         mix = "".join(sorted(set((P[p]["xy"] or "-")[0] for p in (o["from"], o["to"]) if p in P)))
         stats.label("t=" + t, "t=%s.q=%s" % (t, quadrant(net, o["from"], o["to"])), "t=%s.mix=%s" % (t, mix))
         gotc = {}
+        if len(set(o["idx"])) != len(o["idx"]):
+            # every consumer of the row (sparse design matrix, Envelope::set, A(r, i) = c of the full-matrix solvers)
+            # takes an unknown to occur at most once in a linearised equation
+            fails.append("lin.%s.duplicate_unknown: the row names an unknown twice: indexes %s (%s->%s)" % (t, o["idx"], o["from"], o["to"]))
         for i, c in zip(o["idx"], o["coef"]):
             if i < 1 or i > len(unknowns):
                 fails.append("lin.index: %s row refers to unknown %d of %d" % (t, i, len(unknowns)))
